@@ -1,5 +1,96 @@
+import Agd.Model.Refresh
 import Agd.Driver.Util
-/-! Line-protocol driver for the C13 model (stub: not built yet). -/
+/-! Line-protocol driver for the C13 model (filter refreshes). -/
 namespace Agd.Driver.C13
-def main : IO Unit := Agd.Driver.loop (fun (s : Unit) _ => (s, "bad-op")) ()
+open Agd.Refresh Agd.Driver
+
+abbrev Tab (α : Type) := List (Nat × α)
+
+def look {α : Type} (t : Tab α) (d : α) (k : Nat) : α :=
+  match t.find? (fun p => p.1 == k) with
+  | some p => p.2
+  | none => d
+
+structure S where
+  cfg : Cfg := { idxMax := 0, rlMax := 0, svcMax := 0, svcEnabled := false, keepInvalid := true }
+  len : Tab Nat := []
+  idx : Tab (Option (List Entry)) := []
+  svcOk : Tab Bool := []
+  hashOk : Tab Bool := []
+  fresh : Tab Bool := []
+  resp : Tab Resp := []
+  keys : List Nat := []
+  st : St := St.empty
+  h : HSt := { mem := none, disk := none }
+
+def S.env (s : S) : Env :=
+  { len := look s.len 0, idx := look s.idx none, svcOk := look s.svcOk false,
+    hashOk := look s.hashOk false }
+
+/-- `g` = `Get` error; `status:c:cut:eofLast` = a response. -/
+def parseResp (t : String) : Resp :=
+  match t.splitOn ":" with
+  | [st, c, cut, eof] => .resp (nat! st) (nat! c) (bool! cut) (bool! eof)
+  | _ => .getErr
+
+def parseEntries : List String → List Entry
+  | k :: ko :: uo :: u :: r =>
+    { key := nat! k, keyOk := bool! ko, urlOk := bool! uo, url := nat! u } :: parseEntries r
+  | _ => []
+
+def optNat (t : String) : Option Nat := if t == "-" then none else some (nat! t)
+
+def showO : Option Nat → String
+  | none => "-"
+  | some c => toString c
+
+def insertKey (ks : List Nat) (k : Nat) : List Nat :=
+  if ks.contains k then ks else
+  (ks.filter (· < k)) ++ k :: (ks.filter (· > k))
+
+def showSt (s : S) (ok : Bool) : String :=
+  let rls := s.keys.filterMap fun k =>
+    match s.st.rl k, s.st.rlDisk k with
+    | none, none => none
+    | m, d => some (toString k ++ ":" ++ showO m ++ "/" ++ showO d)
+  "ok=" ++ showB ok ++ " idx=" ++ showO s.st.idxDisk ++ " svc=" ++ showO s.st.svc ++ "/" ++
+    showO s.st.svcDisk ++ " rl=" ++ ",".intercalate rls
+
+def step (s : S) : List String → S × String
+  | ["cfg", im, rm, sm, se, ki] =>
+    ({ cfg := { idxMax := nat! im, rlMax := nat! rm, svcMax := nat! sm, svcEnabled := bool! se,
+                keepInvalid := bool! ki } }, "ok")
+  | ["len", c, n] => ({ s with len := (nat! c, nat! n) :: s.len }, "ok")
+  | "doc" :: c :: jsonOk :: rest =>
+    let es := parseEntries rest
+    ({ s with idx := (nat! c, if bool! jsonOk then some es else none) :: s.idx,
+              keys := es.foldl (fun ks e => insertKey ks e.key) s.keys }, "ok")
+  | ["svcok", c, b] => ({ s with svcOk := (nat! c, bool! b) :: s.svcOk }, "ok")
+  | ["hashok", c, b] => ({ s with hashOk := (nat! c, bool! b) :: s.hashOk }, "ok")
+  | ["fresh", k, b] => ({ s with fresh := (nat! k, bool! b) :: s.fresh }, "ok")
+  | ["resp", u, r] => ({ s with resp := (nat! u, parseResp r) :: s.resp }, "ok")
+  | ["disk", "rl", k, c] =>
+    ({ s with st := { s.st with rlDisk := put s.st.rlDisk (nat! k) (optNat c) },
+              keys := insertKey s.keys (nat! k) }, "ok")
+  | ["disk", "idx", c] => ({ s with st := { s.st with idxDisk := optNat c } }, "ok")
+  | ["disk", "svc", c] => ({ s with st := { s.st with svcDisk := optNat c } }, "ok")
+  | ["disk", "hash", c] => ({ s with h := { s.h with disk := optNat c } }, "ok")
+  | ["round", acc, idxFresh, idxResp, svcFresh, svcResp] =>
+    let R : Round := { acceptStale := bool! acc, idxFresh := bool! idxFresh,
+                       idxResp := parseResp idxResp, fresh := look s.fresh false,
+                       resp := look s.resp .getErr, svcFresh := bool! svcFresh,
+                       svcResp := parseResp svcResp }
+    let res := refreshStorage s.env s.cfg s.st R
+    let s' := { s with st := res.1, fresh := [], resp := [] }
+    (s', showSt s' res.2)
+  | ["restart"] => ({ s with st := restart s.st }, "ok")
+  | ["hash", max, acc, fresh, r] =>
+    let res := refreshHash s.env (nat! max) (bool! acc) s.h (bool! fresh) (parseResp r)
+    ({ s with h := res.1 },
+      "ok=" ++ showB res.2 ++ " mem=" ++ showO res.1.mem ++ " disk=" ++ showO res.1.disk)
+  | ["hrestart"] => ({ s with h := { s.h with mem := none } }, "ok")
+  | _ => (s, "bad-op")
+
+def main : IO Unit := loop step {}
+
 end Agd.Driver.C13
